@@ -75,7 +75,7 @@ func effectiveSet(set []SetKV, prefix, suffix string, exclude []string) (map[str
 func drawWriteBack(t *rapid.T) WBCase {
 	pool := genKeyPool(t, rapid.IntRange(2, 7).Draw(t, "npool"))
 	var c WBCase
-	c.File = genFile(t, pool, 10, true)
+	c.File = genFile(t, pool, 10, true, "write-back")
 	switch rapid.IntRange(0, 5).Draw(t, "opts") {
 	case 0:
 		c.Prefix = rapid.SampledFrom([]string{"whatap.", "pre_", "p-"}).Draw(t, "prefix")
@@ -248,6 +248,7 @@ func runWriteBack(c WBCase) *pbt.Result {
 		}
 		panic(err)
 	}
+	defer guard("write-back", c)()
 	home := mkHome()
 	defer os.RemoveAll(home)
 	path := filepath.Join(home, confName)
@@ -281,6 +282,9 @@ func runWriteBack(c WBCase) *pbt.Result {
 	}
 	if c.File.has("blank", nil) {
 		classes["file:blank-lines"] = true
+	}
+	if c.File.has("comment", func(l Line) bool { return len(l.render()) >= 4096 }) {
+		classes["file:comment-line>=4096-bytes"] = true
 	}
 	wrote := false
 	for i, set := range c.Sets {
@@ -365,7 +369,7 @@ func runWriteBack(c WBCase) *pbt.Result {
 var writeBackSpec = pbt.Register(pbt.Spec[WBCase]{
 	Prop: "C18", Name: "write-back",
 	Rule: "file of 0-10 lines (key lines with blanks around '=', raw or escaped values, empty values; comment lines with and without '=', indented, with trailing blanks; blank lines), options none|prefix|suffix|both and an exclusion list, 1-2 SetValues calls of 0-4 pairs (existing keys, new keys, keys already carrying the prefix, empty value = remove); after each call the file is read with the harness's own properties reader: key->value map == old ∪ new (empty = unset), comment/blank lines byte-identical and all surviving lines in their old order with new keys only appended, no key twice; then a reload must make every value of the file visible through all typed getters; non-trivial = at least one pair effectively written to a file that has comment lines",
-	Quick: 1600, Thorough: 120000,
+	Quick: 6000, Thorough: 600000,
 	Draw: drawWriteBack, Run: runWriteBack,
 })
 
